@@ -1,10 +1,112 @@
-(* C11 — Chain walking returns exactly the permitted root-terminated paths. *)
+(* C11 — Chain walking returns exactly the permitted root-terminated paths.
+   Property theorems only; each is closed by [exact] of a lemma from
+   proof/C11Proofs.v / proof/C11AsyncProofs.v and followed by Print Assumptions.
+
+   [g] ranges over every graph reachable by AddCert / AddRoot
+   ([state_after empty_graph ops], C10), [c] over every certificate (in the
+   graph or not).  A path is a list of edges starting with the start edge;
+   [permitted g c p] is the property's reading: every further edge is an edge of
+   the graph into the issuer node of the edge before it ([nlink]: that edge is
+   not a root, the (subject, key) of the new edge is not yet in the chain,
+   fewer than 9 certificates so far, canAddToChain admits the certificate), and
+   the last edge is a root. *)
 From Coq Require Import List NArith ZArith Bool Arith.
 From Verif Require Import Harness AbsCertG.
 From VerifModel Require Import C10 C11 C11Async.
-From VerifProof Require Import C10Proofs C11AsyncProofs.
+From VerifProof Require Import C10Proofs C11Proofs C11AsyncProofs.
 Import ListNotations.
 
+(* soundness: every returned chain is the certificate list of a permitted path *)
+Theorem C11_walk_sound : forall ops c ch,
+  let g := state_after empty_graph ops in
+  In ch (walk g c) -> exists p, permitted g c p /\ ch = map e_cert p.
+Proof. exact (fun ops => walk_sound _ (ginv_history ops)). Qed.
+Print Assumptions C11_walk_sound.
+
+(* FULL STATEMENT (completeness): forall p, permitted g c p -> In (map e_cert p) (walk g c).
+   The faithful model REFUTES it in two classes of inputs (C11_complete_refuted_* below;
+   both reproduced on the implementation and listed in known_findings.txt).  Proved:
+   completeness for every permitted path whose final (root) edge has an issuer node that
+   is not the (subject, key) of an earlier edge of the path ([root_issuer_ok]); paths that
+   consist of the start edge alone are not restricted. *)
+Theorem C11_walk_complete_partial : forall ops c p,
+  let g := state_after empty_graph ops in
+  permitted g c p -> root_issuer_ok g c p -> In (map e_cert p) (walk g c).
+Proof. exact (fun ops => walk_complete_partial _ (ginv_history ops)). Qed.
+Print Assumptions C11_walk_complete_partial.
+
+Theorem C11_complete_refuted_root_issuer_unknown :
+  let r := mkCert 0 1 9 1 true true (-1) 0 9 [] in
+  let l := mkCert 1 3 1 4 false false 0 0 9 [1%N] in
+  let g := state_after empty_graph [AddRoot r; AddCert l] in
+  permitted g l [mkEdge l (Some (1, 1)%N) (3, 4)%N false; mkEdge r None (1, 1)%N true] /\ walk g l = [].
+Proof. exact complete_refuted_unknown_issuer. Qed.
+Print Assumptions C11_complete_refuted_root_issuer_unknown.
+
+Theorem C11_complete_refuted_root_issuer_in_chain :
+  let ab := mkCert 0 1 2 1 true true (-1) 0 9 [2%N] in
+  let ba := mkCert 1 2 1 2 true true (-1) 0 9 [1%N] in
+  let g := state_after empty_graph [AddCert ab; AddRoot ba] in
+  permitted g ab [mkEdge ab (Some (2, 2)%N) (1, 1)%N false; mkEdge ba (Some (1, 1)%N) (2, 2)%N true] /\ walk g ab = [].
+Proof. exact complete_refuted_issuer_in_chain. Qed.
+Print Assumptions C11_complete_refuted_root_issuer_in_chain.
+
+(* no chain is returned twice *)
+Theorem C11_walk_nodup : forall ops c, NoDup (walk (state_after empty_graph ops) c).
+Proof. exact (fun ops c => walk_nodup _ c (ginv_history ops)). Qed.
+Print Assumptions C11_walk_nodup.
+
+(* at most maxIntermediateCount = 9 certificates *)
+Theorem C11_walk_length_bound : forall ops c ch,
+  In ch (walk (state_after empty_graph ops) c) -> 1 <= length ch <= 9.
+Proof. exact (fun ops => walk_length_bound _ (ginv_history ops)). Qed.
+Print Assumptions C11_walk_length_bound.
+
+(* what a returned chain looks like, in terms of certificates: it starts at the
+   certificate walked from; no two certificates share (subject, key); every
+   certificate is followed by a certificate of the graph whose subject is its
+   issuer name and whose key verifies it; certificates between start and root
+   are CAs, and every certificate after the start respects its path length
+   constraint for the number of certificates below it *)
+Theorem C11_walk_chain_properties : forall ops c ch,
+  let g := state_after empty_graph ops in
+  In ch (walk g c) ->
+  (exists c0 rest, ch = c0 :: rest /\ c_fp c0 = c_fp c) /\
+  NoDup (map node_of ch) /\
+  (forall s1 a b s2, ch = s1 ++ a :: b :: s2 ->
+     c_subj b = c_iss a /\ verifies (node_of b) a = true /\ has_fp (c_fp b) (g_edges g) = true) /\
+  (forall s1 x s2, ch = s1 ++ x :: s2 -> s1 <> [] ->
+     (s2 <> [] -> c_bcv x = true /\ c_ca x = true) /\
+     (c_bcv x = true -> (0 <= c_mpl x)%Z -> (Z.of_nat (length s1) - 1 <= c_mpl x)%Z)).
+Proof. exact (fun ops => walk_chain_properties _ (ginv_history ops)). Qed.
+Print Assumptions C11_walk_chain_properties.
+
+(* the walk stops at the first root edge: exactly the last edge of a returned chain is a root *)
+Theorem C11_walk_stops_at_first_root : forall ops c ch,
+  let g := state_after empty_graph ops in
+  In ch (walk g c) ->
+  exists p, ch = map e_cert p /\ forall s1 x s2, p = s1 ++ x :: s2 -> (e_root x = true <-> s2 = []).
+Proof. exact (fun ops => walk_root_last _ (ginv_history ops)). Qed.
+Print Assumptions C11_walk_stops_at_first_root.
+
+(* DESIGN §8 row 11 after repair f1334b8: nothing from the self-signed non-root S, one chain for the leaf *)
+Theorem C11_selfsigned_cross_after_repair :
+  let s  := mkCert 0 1 1 1 true true (-1) 0 9 [1%N] in
+  let r  := mkCert 1 0 0 0 true true (-1) 0 9 [0%N] in
+  let s' := mkCert 2 1 0 1 true true (-1) 0 9 [0%N] in
+  let l  := mkCert 3 3 1 4 false false 0 0 9 [1%N] in
+  let g := state_after empty_graph [AddCert s; AddRoot r; AddCert s'; AddCert l] in
+  walk g s = [] /\ walk g l = [[l; s'; r]].
+Proof. exact selfsigned_cross_example. Qed.
+Print Assumptions C11_selfsigned_cross_after_repair.
+
+(* WalkChainsAsync: one producer sending [items] (the chains in the order
+   continueWalking finds them) and then closing, one consumer ranging over the
+   channel.  For every capacity >= 1 and every interleaving (every trace of the
+   transition system): what the consumer has is a prefix of [items]; when its
+   loop has ended it has exactly [items] and the channel is closed; at most
+   2|items|+2 steps exist; while the loop has not ended some goroutine can move
+   (no deadlock), and a state where nothing can move is the finished state. *)
 Theorem C11_async_delivers_same : forall (A : Type) (items : list A) cap ls s,
   1 <= cap -> trace A cap (init items) ls s ->
   (exists rest, got s ++ rest = items) /\
@@ -14,3 +116,13 @@ Theorem C11_async_delivers_same : forall (A : Type) (items : list A) cap ls s,
   ((forall l, step cap s l = None) -> got s = items /\ closed s = true /\ fin s = true).
 Proof. exact async_delivers_same. Qed.
 Print Assumptions C11_async_delivers_same.
+
+(* the same for any scheduler that skips blocked goroutines *)
+Theorem C11_async_any_schedule : forall (A : Type) (items : list A) cap sched,
+  1 <= cap ->
+  let s := exec cap (init items) sched in
+  (exists rest, got s ++ rest = items) /\
+  (fin s = true -> got s = items /\ closed s = true) /\
+  (fin s = false -> exists l s', step cap s l = Some s').
+Proof. exact async_any_schedule. Qed.
+Print Assumptions C11_async_any_schedule.
